@@ -499,7 +499,8 @@ inductive Step
   | halt (c : Conn) (r : PRes)
 
 /-- handler fuel passed by `pollConn` -/
-def handlerFuel (e : Env) : Nat := 1000 + e.tr.input.length * 4 + (e.segs.map (·.2.length)).sum * 4
+def handlerFuel (e : Env) (r : AReq) : Nat :=
+  1000 + e.tr.input.length * 4 + (e.segs.map (·.2.length)).sum * 4 + r.sp.cap * 4
 
 /-- The body of `pollConn` with the recursive calls replaced by `.next`. -/
 def stepConn (c : Conn) : Step :=
@@ -541,7 +542,7 @@ def stepConn (c : Conn) : Step :=
               let hs : HState := { ops := ops, propagate := prop }
               .next { c with phase := .handler r hs, scripts := scripts, env := env' }
   | .handler r h =>
-    match handlerPoll (1000 + c.env.tr.input.length * 4 + (c.env.segs.map (·.2.length)).sum * 4) r h c.env with
+    match handlerPoll (1000 + c.env.tr.input.length * 4 + (c.env.segs.map (·.2.length)).sum * 4 + r.sp.cap * 4) r h c.env with
     | (r, h, e, .pending) => .halt { c with phase := .handler r h, env := e } .pending
     | (_, _, e, .panic s) => .halt { c with env := e } (.panic s)
     | (r, h, e, .done res) =>
